@@ -79,12 +79,12 @@ def inject(spec0, c):
   pieces, ref, cls_inst = driven_pieces(spec)
   kinds = ["dup_same", "dup_overlap", "dup_parent_field", "net_plus_block", "net_plus_net", "remove_driver",
            "loop", "read_child_wire", "write_own_inport", "write_child_outport", "write_child_wire",
-           "op_in_update", "op_in_update_ff", "ff_to_slice", "const_bad_position"]
+           "op_in_update", "op_in_update_ff", "ff_to_slice", "const_bad_position", "dup_via_func"]
   c.shuffle(kinds)
   # the structurally demanding kinds are rarely feasible: try one of them first half of the time
   if c.random() < 0.5:
     first = c.choice(["remove_driver", "loop", "read_child_wire", "dup_parent_field", "net_plus_net", "write_child_outport",
-                      "const_bad_position"])
+                      "const_bad_position", "dup_via_func"])
     kinds.remove(first)
     kinds.insert(0, first)
   for kind in kinds:
@@ -217,6 +217,36 @@ def _try(spec, kind, c, pieces, ref, cls_inst):
           return {ST}
         _newblk(cd, "zwr", [["assign", p, ["const", w, 0]]])
         return {ST, MW}
+  if kind == "dup_via_func":
+    # two update blocks whose @s.func call trees reach the same helper that writes a signal (directly, or
+    # through 1-2 levels of nesting; the second writer may also be a plain block or a net): two drivers
+    names = list(spec["comps"])
+    cd = spec["comps"][c.choice(names)]
+    w = c.choice([1, 4, 8])
+    cd["signals"].append({"name": "zq1", "kind": "wire", "type": w, "dims": []})
+    cd.setdefault("funcs", [])
+    depth = c.randint(0, 2)
+    cd["funcs"].append({"name": "zfw0", "params": [], "ret": None, "w": 0,
+                        "stmts": [["assign", [["a", "zq1"]], ["const", w, 1]]]})
+    for d in range(depth):
+      cd["funcs"].append({"name": "zfw%d" % (d + 1), "params": [], "ret": None, "w": 0,
+                          "stmts": [["call", "zfw%d" % d]]})
+    outer = "zfw%d" % depth
+    _newblk(cd, "zfa", [["call", outer]])
+    other = c.choice(["call", "call", "block", "net"])
+    if other == "call":
+      _newblk(cd, "zfb", [["call", c.choice(["zfw%d" % d for d in range(depth + 1)])]])
+      return {MW}
+    if other == "block":
+      _newblk(cd, "zfb", [["assign", [["a", "zq1"]], ["const", w, 0]]])
+      return {MW}
+    srcs = [sg for sg in cd["signals"] if sg["kind"] == "in" and not sg["dims"] and sg["type"] == w]
+    if srcs:
+      cd["items"].append({"k": "connect", "a": [["a", "zq1"]], "b": [["a", c.choice(srcs)["name"]]], "flip": False,
+                          "op": "connect"})
+      return {MW}
+    _newblk(cd, "zfb", [["call", outer]])
+    return {MW}
   if kind == "const_bad_position":
     # a constant tied to a fresh port / wire from a hierarchical position the port rules forbid (the same
     # rules that apply to a wire driver): own InPort from inside (Type 5 / top: the port is itself a writer),
